@@ -139,6 +139,7 @@ type rig struct {
 	direct  *recordingMatcher
 	script  string
 	rules   []forwarder.HostPortPair
+	ruleFields []forwarder.HostPortPair
 	addr    string
 	cancel  context.CancelFunc
 	done    chan struct{}
@@ -200,11 +201,14 @@ func newRig(desc cfgDesc, w *world) (*rig, error) {
 		pr = r.pac
 	}
 	for _, s := range desc.Rules {
-		p, err := forwarder.ParseHostPortPair(s)
+		p, err := forwarder.ParseHostPortPair(s) // what --connect-to does with the flag value
 		if err != nil {
 			return nil, fmt.Errorf("connect-to %q: %w", s, err)
 		}
 		r.rules = append(r.rules, p)
+		// the MEANING of the flag value src_host:src_port:dst_host:dst_port, taken from its text (the generator
+		// brackets IPv6 hosts, so the split is unambiguous); this, not the parser's output, goes into the case
+		r.ruleFields = append(r.ruleFields, intendedPair(s))
 	}
 	tcfg := forwarder.DefaultHTTPTransportConfig()
 	tcfg.TLSClientConfig.Insecure = true
@@ -470,4 +474,31 @@ func (r *rig) freshDirect(hostname string) (bool, error) {
 		return false, err
 	}
 	return m.Match(hostname), nil
+}
+
+// intendedPair splits HOST1:PORT1:HOST2:PORT2 where hosts are names, IPv4 or [IPv6].
+func intendedPair(s string) forwarder.HostPortPair {
+	var f []string
+	cur := ""
+	depth := 0
+	for _, c := range s {
+		switch {
+		case c == '[':
+			depth++
+		case c == ']':
+			depth--
+		case c == ':' && depth == 0:
+			f = append(f, cur)
+			cur = ""
+			continue
+		default:
+			cur += string(c)
+			continue
+		}
+	}
+	f = append(f, cur)
+	for len(f) < 4 {
+		f = append(f, "")
+	}
+	return forwarder.HostPortPair{Src: forwarder.HostPort{Host: f[0], Port: f[1]}, Dst: forwarder.HostPort{Host: f[2], Port: f[3]}}
 }
